@@ -406,12 +406,16 @@ class Sim:
                 target = (st["dest"] + "/" if st["dest"] else "") + st["p"].split("/")[-1]
                 if target in t or self._pending_under(st["p"]) or self._pending_under(target) or self._clash(t, target):
                     return "skip"
+                if st["p"].endswith("__init__.py"):
+                    return "skip"  # a package's __init__.py is not moved on its own
                 if isdir(st["p"]):
                     self.taint["folder_moved_or_removed"] = True
+                elif not st["p"].endswith(".py"):
+                    self.taint["file_moved_to_ignored_name"] = True  # (a non-module file: the index adds it on a move, known)
                 W.get_resource(st["p"]).move(st["dest"])
             elif a == "c_rename_to_ignored":
                 # e.g. keeping a backup copy: notes.py -> notes.py~ (matches the default ignored_resources)
-                if not isfile(st["p"]) or self._pending_under(st["p"]) or (st["p"] + "~") in t:
+                if not isfile(st["p"]) or self._pending_under(st["p"]) or (st["p"] + "~") in t or st["p"].endswith("__init__.py"):
                     return "skip"
                 W.get_resource(st["p"]).move(st["p"] + "~")
                 self.taint["file_moved_to_ignored_name"] = True
@@ -420,9 +424,11 @@ class Sim:
                 # rename a file through rope, possibly turning a non-module into a module or back
                 if not isfile(st["p"]) or st["q"] in t or not isdir(parent(st["q"])) or self._pending_under(st["p"]) or self._pending_under(st["q"]):
                     return "skip"
+                if st["p"].endswith("__init__.py") or st["q"].endswith("__init__.py"):
+                    return "skip"
                 if st["q"].endswith(".py") and self._clash(t, st["q"]):
                     return "skip"
-                if not st["q"].endswith(".py"):
+                if not st["q"].endswith(".py") or not st["p"].endswith(".py"):
                     self.taint["file_moved_to_ignored_name"] = True  # (index keeps a module renamed to a non-module name: known)
                 W.get_resource(st["p"]).move(st["q"])
                 out.stats["probe_rename_file_extension_change"] += 1
@@ -768,21 +774,27 @@ class CoherenceEngine(Engine):
                     return n
             return "x%d" % rng.randint(0, 999)
 
-        def text():
+        def text(own=""):
+            # (a module importing itself makes rope's inference depend on the entry point)
+            own = own.rsplit("/", 1)[-1].replace(".py", "")
+            pool = [sn for sn in SNIPPETS if not own or not re.search(r"(import|from) %s\b" % re.escape(own), sn)]
             n = rng.randint(1, 3)
-            return "".join(rng.choice(SNIPPETS) for _ in range(n))
+            return "".join(rng.choice(pool) for _ in range(n))
 
         if actor == "client":
             k = rng.choice(["write"] * 4 + ["create_module"] * 2 + ["create_package", "move", "move", "remove", "remove", "refactor", "refactor", "refactor", "move_module", "to_package", "undo", "undo", "redo"])
             if k == "write" and pyfiles:
                 p = rng.choice(pyfiles)
                 cur = t[p].decode("utf-8", "replace")
-                new = text() if rng.random() < 0.4 else cur + rng.choice(SNIPPETS)
+                new = text(p) if rng.random() < 0.4 else cur + text(p)
+                if p.endswith("__init__.py"):
+                    new = text(p.rsplit("/", 2)[-2] if "/" in p else "")
                 return {"a": "c_write", "p": p, "text": new, "dt": dt}
             if k == "create_module":
                 d = rng.choice(dirs)
-                return {"a": "c_create_module", "dir": d, "name": newname(d, MODNAMES, ".py"),
-                        "text": text() if rng.random() < 0.85 else None, "dt": dt}
+                nm = newname(d, MODNAMES, ".py")
+                return {"a": "c_create_module", "dir": d, "name": nm,
+                        "text": text(nm) if rng.random() < 0.85 else None, "dt": dt}
             if k == "create_package":
                 d = rng.choice(dirs)
                 return {"a": "c_create_package", "dir": d, "name": newname(d, PKGNAMES), "dt": dt}
@@ -827,11 +839,14 @@ class CoherenceEngine(Engine):
             if k == "edit" and pyfiles:
                 p = rng.choice(pyfiles)
                 cur = t[p].decode("utf-8", "replace")
-                new = text() if rng.random() < 0.4 else cur + rng.choice(SNIPPETS)
+                new = text(p) if rng.random() < 0.4 else cur + text(p)
+                if p.endswith("__init__.py"):
+                    new = text(p.rsplit("/", 2)[-2] if "/" in p else "")
                 return {"a": "e_edit", "p": p, "text": new, "mode": rng.choice(["inplace", "atomic"]), "fault": fault, "dt": dt}
             if k == "create":
                 d = rng.choice(dirs)
-                return {"a": "e_create", "p": (d + "/" if d else "") + newname(d, MODNAMES, ".py") + ".py", "text": text(), "fault": fault, "dt": dt}
+                nm = newname(d, MODNAMES, ".py")
+                return {"a": "e_create", "p": (d + "/" if d else "") + nm + ".py", "text": text(nm), "fault": fault, "dt": dt}
             if k == "mkpkg":
                 d = rng.choice(dirs)
                 return {"a": "e_mkpkg", "p": (d + "/" if d else "") + newname(d, PKGNAMES), "dt": dt}
